@@ -57,9 +57,6 @@ func (x *Exec) execInstr(fr *Frame, b *ssa.BasicBlock, st *State, ins ssa.Instru
 		lv := x.addrOf(fr, st, in.Addr)
 		x.derefCheck(fr, st, lv, in.Pos(), in.Addr.Name())
 		v := x.val(fr, st, in.Val)
-		if fr.spec && lv.cell == nil {
-			panic(engErr("ghost code writes to the heap in %s", fr.fn.Name()))
-		}
 		x.frameCheckStore(fr, st, lv, in.Pos())
 		x.store(st, lv, v)
 		return false
